@@ -51,13 +51,12 @@ class Watchdog:
         while True:
             time.sleep(0.25)
             with self._lock:
-                d = self.deadline
-            if d is not None and time.time() > d:
-                self.fired += 1
-                z3.main_ctx().interrupt()
-                with self._lock:
-                    if self.deadline is not None:
-                        self.deadline = time.time() + 2  # again, until the call returns
+                # decided and carried out under the lock that __exit__ takes: an interrupt can only be issued while the
+                # call it is meant for is still in progress, never land in the next one
+                if self.deadline is not None and time.time() > self.deadline:
+                    self.fired += 1
+                    z3.main_ctx().interrupt()
+                    self.deadline = time.time() + 2  # again, until the call returns
 
     def __enter__(self):
         if self._thread is None:
@@ -161,6 +160,7 @@ class StrMachine:
         self.res = Result()
         self.live = []
         self._seen = set()
+        self.abandon = False
 
     def fail(self, clause, i, step, obs):
         self.res.fails.append((f"{self.frontend}:str:{step['op']}:{clause}", {"step": i, "op": step, **obs}))
@@ -181,6 +181,9 @@ class StrMachine:
                 break
             if WATCHDOG.fired != fired:
                 self.res.stats["abandoned_after_overrun"] = 1  # the rest of the history would mostly overrun as well
+                break
+            if self.abandon:
+                self.res.stats["abandoned_after_failed_add"] = 1
                 break
         return self.res
 
@@ -232,6 +235,10 @@ class StrMachine:
             arg = cs if (len(cs) != 1 or step.get("as_list")) else cs[0]
             st_, _ = self._call(i, step, lambda: s.add(arg), allow_unsat=False)
             if st_ == "fail":
+                return
+            if st_ != "ok":
+                # the solver gave up inside add(): which of the constraints it holds now is unknown, nothing later can be judged
+                self.abandon = True
                 return
             had = bool(lv.M)
             lv.M = [env for env in lv.M if all(ev(t, env) for t in cs_t)]
@@ -402,7 +409,7 @@ class StrMachine:
 # ------------------------------------------------------------------ generators
 
 POOL = ["", "a", "b", "ab", "ba", "abc", "aab", "0", "7", "12", "007", "a.b", ".*", "\x00", "a\x00b", "\\", "\\u{61}", "é", "€a", "\n", "-5",
-        "\U0001f600", "a b", "[a]", "\xff"]
+        "\U0001f600", "a b", "[a]", "\xff", "\ufeffa", "\ufeff"]
 
 
 def _sv(n):
